@@ -250,6 +250,9 @@ func guard(f func() error) (r PhaseResult) {
 		}
 	}()
 	if err := f(); err != nil {
+		if os.Getenv("VERIF_DEBUG") != "" {
+			fmt.Fprintf(os.Stderr, "DEBUG error: %+v\n", err)
+		}
 		return PhaseResult{Ok: false, Err: err.Error()}
 	}
 	return PhaseResult{Ok: true}
